@@ -39,7 +39,8 @@ SPEC['C05'] = ('Hidden dependencies are always detected', ['Local', 'History', '
   ('C05_write_rejected_before_modification', 'Local', 'sess_write_rejected', 'a diagnosed Context::write aborts before the resource is modified'),
   ('C05_final_store_refuted', 'Findings', 'C05_final_store_refuted', 'recorded finding (O6): the "Hence" clause fails when an intermediate task drops its require but keeps its output'),
 ], 'Detection is proved at the operation level for all worlds; the "Hence" clause is a recorded finding.')
-SPEC['C06'] = ('Overlapping writes are always detected', ['Local', 'History'], [
+SPEC['C06'] = ('Overlapping writes are always detected', ['Local', 'History', 'NoBug4All'], [
+  ('C06_store_invariant_every_reachable_state', 'NoBug4All', 'history_no_bug4', 'UNCONDITIONAL form of the next theorem: for ALL programs, checkers, fuel and ALL histories (edits, environment switches, sessions of top-down requires and bottom-up builds in any mix, completed or aborted) no session ends with the model-only "node missing / search fuel" error, and the store reached is a well-formed acyclic graph with gap-free ranks, typed edges and at most one recorded writer per resource'),
   ('C06_store_invariant_all_histories', 'History', 'reachable_store_ok', 'for ALL programs, checkers, fuel and histories (edits, sessions of requires and bottom-up builds, including worlds left by aborts): the store is a well-formed DAG, well typed, with at most one recorded writer per resource'),
   ('C06_single_writer', 'History', 'store_single_writer', 'hence two recorded writers of one resource are the same task'),
   ('C06_detected', 'Local', 'validate_write_overlap', 'a recorded writer makes every further write / written_to of the resource an overlap'),
@@ -78,7 +79,9 @@ SPEC['C18'] = ('Checker errors during validation never cause stale reuse and are
   ('C18_td_error', 'Local', 'check_deps_error', 'top-down: an erring resource checker ends validation with "inconsistent", pushes the error, never aborts'),
   ('C18_bu_error', 'Local', 'try_schedule_error', 'bottom-up: an erring checker pushes the error and schedules the task'),
 ], 'For arbitrary checker records and worlds.')
-SPEC['C19'] = ('An aborted build leaves the Pie instance usable and sound', ['Local', 'History', 'ExecInv', 'ExecSession', 'Cert', 'Stable', 'NoBug4', 'Sim', 'Final', 'Findings'], [
+SPEC['C19'] = ('An aborted build leaves the Pie instance usable and sound', ['Local', 'History', 'ExecInv', 'ExecSession', 'Cert', 'Stable', 'NoBug4', 'NoBug4All', 'Sim', 'Final', 'Findings'], [
+  ('C19_store_invariants_any_history', 'NoBug4All', 'history_no_bug4', 'for ALL programs, checkers and histories, top-down, bottom-up and mixed, with any number of aborted builds at any point: the instance is left with a well-formed store (acyclic, gap-free ranks, typed edges, single writer) and never with a "node missing" internal error'),
+  ('C19_any_session_from_invariant', 'NoBug4All', 'run_session_R', 'the step form: from ANY world satisfying the invariant L (store invariants + the executing task and all queued tasks have nodes), any session (requires, bottom-up builds, aborted or not) ends in a world satisfying L again'),
   ('C19_spurious_cycle_after_abort_refuted', 'Findings', 'C19_spurious_cycle_after_abort_refuted', 'recorded finding (O13): for programs whose require structure changes with the state, a repaired cycle can leave a reserved edge of the aborted task behind that makes a later build abort with a cycle that no longer exists'),
   ('C19_no_internal_error_all_histories', 'Final', 'history_sound',
    'for ALL programs, checkers, fuel and ALL histories of top-down sessions and external changes from the empty store: every session result is a value, a user-level abort (task panic, cycle, hidden dependency, overlapping write) or out-of-fuel -- never one of the internal-invariant panics (ABug 1 reserved dependency checked, 2 consistent task without output, 3 require dependency missing, 5 edge without data) -- and the final store satisfies both store invariants (J), whatever aborted before. The model-only abort ABug 4 is proved unreachable (NoBug4.v, DagNoFuel.v)'),
